@@ -40,7 +40,7 @@ func init() {
 		Floors: func(t string) map[string]int64 {
 			return map[string]int64{"orbit.reversed_single_ring": 1000, "orbit.unclosed": 1000, "orbit.all_reversed": 500, "shape.with_holes": 500, "shape.multipolygon": 300,
 				"centroid.MultiPolygon": 1000, "centroid.Polygon": 500, "area.exact_equal": 5000, "area.float": 1000, "op.area": 500, "op.centroid": 500,
-				"distance.on_line": 500, "distance.beyond_end": 500, "distance.zero_length_segment": 200, "buffer": 500, "length": 1000}
+				"distance.on_line": 500, "distance.beyond_end": 500, "distance.zero_length_segment": 200, "buffer": 500, "length": 1000, "line.long": 300}
 		},
 	})
 }
@@ -421,6 +421,11 @@ func runLine(c *core.Ctx) {
 		return
 	}
 	n := r.IntRange(2, 12)
+	if r.Chance(0.12) {
+		// long lines (beyond any block / chunk size an implementation might use: 64, 128, 256 …)
+		n = []int{64, 65, 66, 129, 130, 200, 257, 400}[r.Intn(8)]
+		c.Count("line.long")
+	}
 	integer := r.Bool()
 	scale := 1.0
 	if !integer {
